@@ -81,6 +81,7 @@ type vector struct {
 	V     *valgen.Value
 	W     *valgen.W
 	Masks []*maskSpec
+	Thin  bool // reads: the valid input only, every other mask on the non-default sets
 }
 
 type pending struct {
@@ -227,7 +228,7 @@ func corpusProgram() *schemagen.Program {
 	f := &schemagen.File{Name: "a", Namespace: "c13corp.apkg"}
 	// a required field whose type is a typedef of a container (ZeroWriter, C13-6)
 	f.Defs = append(f.Defs, &schemagen.Def{Typedef: &schemagen.Typedef{File: "a", Name: "L", Type: li}})
-	for _, st := range []*schemagen.Struct{in, rq, u, s} {
+	for _, st := range append([]*schemagen.Struct{in, rq, u, s}, boundaryStructs(i32, inT)...) {
 		f.Defs = append(f.Defs, &schemagen.Def{Struct: st})
 	}
 	return &schemagen.Program{Key: "c13corp", Files: []*schemagen.File{f}}
@@ -400,6 +401,18 @@ func main() {
 			st.Structs++
 			st.Values++
 			st.Masks += len(vec.Masks)
+			// the storage boundary of the library's field map (ids 62..65 and a negative one)
+			for k := 0; k < 3; k++ {
+				bs := p.Struct(fmt.Sprintf("a.B%d", k))
+				bv := &vector{S: bs, V: boundaryValue(k), Masks: boundaryMasks(k), Thin: true}
+				if w, err := valgen.ToWire(p, bs, bv.V); err == nil {
+					bv.W = w
+				}
+				vectors[p.Key] = append(vectors[p.Key], bv)
+				st.Structs++
+				st.Values++
+				st.Masks += len(bv.Masks)
+			}
 			continue
 		}
 		gw := &valgen.G{R: r.Fork(), Prog: p, P: valgen.DefaultParams()}
@@ -511,8 +524,11 @@ func main() {
 					add(&pending{kind: "mwrite", prog: pi, unit: u, os: o, vec: vec, mask: ms, plain: pw},
 						"mwrite", u.Key, s.QName(), vec.V.JSON(), b01(ms.Black), ms.pathsJSON())
 					for ri, rn := range rins {
-						if pi != 0 && (ri+mi)%2 == 1 && o.Key != "m0" {
+						if (pi != 0 || vec.Thin) && (ri+mi)%2 == 1 && o.Key != "m0" {
 							continue // thin the reads on the non-default sets
+						}
+						if vec.Thin && rn.kind != "valid" {
+							continue
 						}
 						init := "new"
 						if rn.zero {
